@@ -475,7 +475,14 @@ func (c *compiler) evalIdentifier(node *ast.Identifier) (interface{}, error) {
 			return nil, fmt.Errorf("'%s' does not have a field or method named '%s' (%s)", node.Callee.String(), node.Value, node)
 		}
 
-		f := rv.FieldByName(node.Value)
+		var f reflect.Value
+		if sf, ok := rv.Type().FieldByName(node.Value); ok {
+			// FieldByIndexErr: a field promoted through a nil embedded pointer is absent, not a panic
+			var ferr error
+			if f, ferr = rv.FieldByIndexErr(sf.Index); ferr != nil {
+				return nil, nil
+			}
+		}
 		if f.Kind() == reflect.Ptr {
 			if f.IsNil() {
 				return nil, nil
